@@ -1,5 +1,87 @@
-(* STUB: Impl model of cedt.rs -- to be written *)
-From Coq Require Import NArith List.
-From ACPI Require Import Lib.Bytes Lib.Sx Lib.Machine Impl.Checksum Impl.Table Impl.Fields Impl.Run.
+(* Impl model of cedt.rs (CXL Early Discovery Table).  Case vocabulary: see Spec/CedtS.v. *)
+From Coq Require Import NArith List Bool.
+From ACPI Require Import Lib.Bytes Lib.Sx Lib.Machine Impl.Checksum Impl.Table Impl.Fields Impl.Run Impl.Madt.
 Import ListNotations.
-Definition cedt_case (md : mode) (c : sx) : list ev := [EvPanic].
+Open Scope N_scope.
+
+(* CxlVersion as u32 / CxlVersion::len() *)
+Definition cxl_version_len (v : N) : option N :=
+  match v with 0 => Some 0x2000 | 1 => Some 0x10000 | _ => None end.
+
+(* CxlHostBridge::to_aml_bytes; CxlHostBridge::len() = 32 *)
+Definition chbs_bytes (uid ver base verlen : N) : list N :=
+  b1 0 ++ b1 0 ++ w2 32 ++ d4 uid ++ d4 ver ++ d4 0 ++ q8 base ++ q8 verlen.
+
+(* InterleaveWays (numbered by its discriminant) -> num_interleaved_ways() *)
+Definition num_ways (code : N) : option N :=
+  match code with
+  | 0 => Some 1 | 1 => Some 2 | 2 => Some 4 | 3 => Some 8 | 4 => Some 16 | 8 => Some 3 | 9 => Some 6 | 10 => Some 12
+  | _ => None
+  end.
+
+(* WindowRestrictions discriminants of the five builders:
+   1 cxl_type_2_memory  2 cxl_type_3_memory  3 volatile  4 persistent  5 fixed_configuration *)
+Definition restr_bit (b : N) : option N :=
+  match b with 1 => Some 1 | 2 => Some 2 | 3 => Some 4 | 4 => Some 8 | 5 => Some 16 | _ => None end.
+
+Definition restr_builder (o : sx) : option N :=
+  match o with SL [SA b] => restr_bit b | _ => None end.
+
+(* window_restrictions starts at 0; each builder does  self.window_restrictions |= bit *)
+Definition restr_apply (bits : list N) : N := fold_left N.lor bits 0.
+
+(* CxlFixedMemory: len() = 0x24 + 4 * num_interleaved_ways() -- NOT the number of targets pushed *)
+Definition cfmws_len (nways : N) : N := 0x24 + 4 * nways.
+Definition cfmws_bytes (base size ways arith gran restr qtg nways : N) (targets : list (list N)) : list N :=
+  b1 1 ++ b1 0 ++ w2 (cfmws_len nways) ++ d4 0 ++ q8 base ++ q8 size ++ b1 ways ++ b1 arith ++ w2 0 ++ d4 gran
+  ++ w2 restr ++ w2 qtg ++ concat targets.
+
+(* XorInterleaveMath: len() = 8 + 8 * bitmaps.len() *)
+Definition cxims_len (n : N) : N := 8 + 8 * n.
+Definition cxims_bytes (gran : N) (maps : list N) : list N :=
+  let n := N.of_nat (length maps) in
+  b1 2 ++ b1 0 ++ w2 (cxims_len n) ++ w2 0 ++ b1 gran ++ b1 n ++ concat (map q8 maps).
+
+(* PortAssociation: len() = 17 *)
+Definition rdpas_bytes (seg bdfv proto base : N) : list N :=
+  b1 3 ++ b1 0 ++ w2 17 ++ w2 seg ++ w2 bdfv ++ b1 proto ++ q8 base.
+
+Definition cedt_new (c : sx) : option tbl :=
+  match c with
+  | SL [o; t; r] =>
+      do h <- sx_hdr [67; 69; 68; 84] 1 o t r;          (* "CEDT" *)
+      Some (tbl_new KCedt h [])
+  | _ => None
+  end.
+
+(* add_*: update_header(st.u8sum(), len as u32); push.  u8sum runs the serialiser (and its asserts). *)
+Definition cedt_addition (s : tbl) (o : sx) : option addition :=
+  match o with
+  | SL [SA 1; SA uid; SA ver; SA base] =>                                   (* add_host_bridge *)
+      do vl <- cxl_version_len ver;
+      Some {| a_style := SumAdd; a_claimed := 32; a_bytes := chbs_bytes uid ver base vl; a_returns := false; a_flag := t_flag s |}
+  | SL [SA 2; SA base; SA size; SA arith; SA gran; SA ways; SA qtg; SL builders; SL targets] =>   (* add_fixed_memory *)
+      do nw <- num_ways ways;
+      do bits <- sx_list_all restr_builder builders;
+      do tg <- sx_list_all (sx_arr 4) targets;
+      (* assert_eq!(self.num_interleaved_ways(), self.interleave_targets.len()) *)
+      do _ <- assert (nw =? N.of_nat (length tg));
+      Some {| a_style := SumAdd; a_claimed := cfmws_len nw;
+              a_bytes := cfmws_bytes base size ways arith gran (restr_apply bits) qtg nw tg; a_returns := false; a_flag := t_flag s |}
+  | SL [SA 3; SA gran; SL maps] =>                                          (* add_xor_interleave_math *)
+      do ms <- sx_nums maps;
+      (* assert!(self.bitmaps.len() <= u8::MAX as usize) *)
+      do _ <- assert (N.of_nat (length ms) <=? 255);
+      Some {| a_style := SumAdd; a_claimed := cxims_len (N.of_nat (length ms)); a_bytes := cxims_bytes gran ms;
+              a_returns := false; a_flag := t_flag s |}
+  | SL [SA 4; SA seg; SA bus; SA dev; SA fn; SA proto; SA base] =>          (* add_port_association *)
+      do _ <- pci_ok dev fn;
+      Some {| a_style := SumAdd; a_claimed := 17; a_bytes := rdpas_bytes seg (bdf bus dev fn) proto base; a_returns := false;
+              a_flag := t_flag s |}
+  | _ => None
+  end.
+
+Definition cedt_step : mode -> tbl -> sx -> option (tbl * list ev) := add_step cedt_addition.
+
+Definition cedt_case (md : mode) (c : sx) : list ev :=
+  run_history (fun s => Some (tbl_image s)) (cedt_step md) cedt_new c.
